@@ -122,6 +122,16 @@ CHECKS = {
               "validated against the machine by TLC (Trace_Rollout). RepeatedStepper/ForcedStepper/build_ic_set are compared with python loops "
               "over every public stepper class."),
         note="TLC, dump parser, injectivity of the bookkeeping stepper, jax.disable_jit / ordered debug callbacks for call logging"),
+    "C17": dict(
+        category="model_checking", design_ref="4/C17", engine="layout",
+        technique="TLC-exact radial spectrum of every real basis function (MC_Spectrum) with one-bin/amplitude/Parseval/average invariants + replay into get_spectrum",
+        text=("MC_Spectrum computes, in integer/rational arithmetic, the power and amplitude spectrum (sum and average binning) of every real basis "
+              "function of every (D,N) in range - negative wavenumbers on leading axes, corner modes, Nyquist, cos and sin - and TLC checks that each "
+              "mode lands in exactly the bin round(|k|) (or nowhere outside the Nyquist sphere), with amplitude 1 and power equal to half the mean "
+              "square, and that average = sum / number of stored modes in the bin. Every state is replayed with a random amplitude and a second random "
+              "basis function in a second channel (channel independence) through ex.get_spectrum for power/amplitude x sum/average; random states are "
+              "compared with the explicit per-mode sum."),
+        note="TLC, numpy cos/sin, tolerance 1e-10"),
     "C20": dict(
         category="model_checking", design_ref="4/C20", engine="validate",
         technique="TLC decision tables (MC_Validate) replayed into every public class + TLC trace validation (Trace_Validate) of hook-recorded __call__ decisions (own drivers and the repository's tests)",
@@ -173,7 +183,7 @@ def main():
             "add_only": True,
         },
         "engines": [
-            {"name": "layout", "path": "spec/MC_Layout.tla spec/MC_Fft.tla harness/checks/c04.py", "serves_properties": ["C04"],
+            {"name": "layout", "path": "spec/MC_Layout.tla spec/MC_Fft.tla harness/checks/c04.py", "serves_properties": ["C04", "C17"],
              "kind_free_text": "TLC exhaustive tables + spec->code replay"},
             {"name": "linear", "path": "spec/Symbols.tla spec/MC_Linear.tla harness/linear.py harness/checks/c01.py", "serves_properties": ["C01", "C05", "C11", "C13"],
              "kind_free_text": "TLC symbol tables + behaviours, spec->code replay"},
